@@ -65,6 +65,7 @@ def run(chk):
                            "%s prints %s; Go's semantics give %s" % (kernel.call(c), got, want), {"case": c, "got": got, "want": want})
     slices(chk, wa, thorough)
     values(chk, wa)
+    maps(chk, wa)
     chk.sample({"call": kernel.call(cs[0]), "want": kernel.expected_rt(cs[0], signed)})
     chk.sample({"call": kernel.call(cs[len(cs) // 2]), "want": kernel.expected_rt(cs[len(cs) // 2], signed)})
     chk.cov["exhaustive"] = True
@@ -133,6 +134,19 @@ def values(chk, wa):
                        % (c16.tyexpr(sk["type"]), sk["ctx"], out[-120:], rc, ", timed out" if to else "", want), {"skeleton": sk, "program": src, "output": out[-400:]})
     chk.cov["value_skeletons"] = len(sks)
     chk.sample({"value_skeleton": sks[len(sks) // 3], "program": c16.render(sks[len(sks) // 3])[0]})
+
+
+def maps(chk, wa):
+    """maps as sets of key/value pairs: every transition of the bounded WaMap/FiniteMap model (the C13 specification) for int and string keys"""
+    import c13
+    res = common.run_tlc("map", "WaMap", "em.cfg", files={"em.cfg": c13.cfg(5, [7], 7, True, invariants=False)}, collect_prefix='<<"T"', timeout=3000)
+    chk.tlc(res, "WaMap transitions keys=5 ops=7 (maps as finite maps)")
+    paths = c13.parse_lines(res.lines)
+    if not paths:
+        raise MachineryError("no map transitions emitted")
+    for kind in ("int", "string"):
+        c13.check_kind(chk, wa, kind, 5, paths, "transitions of WaMap", prefix="C01:maps")
+    chk.cov["map_histories"] = len(paths)
 
 
 def replay(chk, path):
